@@ -67,12 +67,21 @@ pub fn string_to_tokens(file_id: usize, content: &str) -> Vec<PlacedToken> {
         .map(|(token, byte_range)| {
             let is_newline = token == Token::Newline;
             let col_start = char_at_byte[byte_range.start].unwrap() - last_newline;
+            let line_start = line;
+            if !is_newline {
+                // Tokens (strings) can span several lines - the newlines inside
+                // them have to be counted as well.
+                for (offset, _) in content[byte_range.clone()].match_indices('\n') {
+                    last_newline = char_at_byte[byte_range.start + offset].unwrap();
+                    line += 1;
+                }
+            }
             let col_end = char_at_byte[byte_range.end].unwrap() - last_newline;
             let span = Span {
                 file_id,
                 col_start,
                 col_end,
-                line_start: line,
+                line_start,
                 line_end: line,
             };
             if is_newline {
